@@ -14,7 +14,8 @@ from .programs import Built, as_int_list
 
 class MtlRun:
     def __init__(self, scn: dict, rng: random.Random, dtype=torch.float64, aggregator=None,
-                 retain: bool = True, chunk="scn", presentations=PRESENTATIONS, hook_scale=None):
+                 retain: bool = True, chunk="scn", presentations=PRESENTATIONS, hook_scale=None, reps: int | None = None):
+        """``reps``: consecutive identical calls on the same (retained) graph - see BackwardRun."""
         from torchjd import mtl_backward
         from torchjd.aggregation import Constant
 
@@ -26,7 +27,7 @@ class MtlRun:
         self.tparams = [[int(x) for x in tp] for tp in scn["tparams"]]
         self.shared = [int(x) for x in scn["shared"]]
         for l, flat in fmap(scn.get("pregrad")).items():
-            B.set_grad(int(l), flat)
+            B.set_grad(int(l), flat, layout=rng.choice([None, 0, 1]))
         self.pre_obj = {l: B.node(l).grad for l in self.leaves}
         self.pre_ptr = {l: None if B.node(l).grad is None else B.node(l).grad.untyped_storage().data_ptr()
                         for l in self.leaves}
@@ -47,22 +48,39 @@ class MtlRun:
         feats = [B.node(f) for f in self.feats]
         feats_arg = feats[0] if (len(feats) == 1 and rng.random() < 0.4) else (
             tuple(feats) if rng.random() < 0.3 else feats)
+        if reps is None:
+            reps = 2 if (aggregator is None and retain and rng.random() < 0.3) else 1
+        self.reps = reps
+        self.positional = rng.random() < 0.25
         self.exc = None
         try:
-            mtl_backward([B.node(l) for l in self.losses], feats_arg, self.agg,
-                         tasks_params=[present([B.node(p) for p in tp], self.how_tp) for tp in tps],
-                         shared_params=present([B.node(s) for s in sh], self.how_sh),
-                         retain_graph=retain, parallel_chunk_size=None if k == 0 else k)
+            for r in range(reps):
+                tpa = [present([B.node(p) for p in tp], self.how_tp) for tp in tps]
+                sha = present([B.node(s) for s in sh], self.how_sh)
+                rt = True if r < reps - 1 else retain
+                if self.positional:      # documented order: (losses, features, aggregator, tasks_params, shared_params, retain_graph, parallel_chunk_size)
+                    mtl_backward([B.node(l) for l in self.losses], feats_arg, self.agg, tpa, sha, rt, None if k == 0 else k)
+                else:
+                    mtl_backward([B.node(l) for l in self.losses], feats_arg, self.agg, tasks_params=tpa, shared_params=sha,
+                                 retain_graph=rt, parallel_chunk_size=None if k == 0 else k)
         except Exception as e:                              # noqa: BLE001
             self.exc = e
         self.after_vals = B.flat_vals()
         self.after_grads = {l: B.grad_flat(l) for l in self.leaves}
         self.meta = {"shapes": [list(s) for s in B.shapes], "shared_as": self.how_sh, "tasks_as": self.how_tp,
-                     "dtype": str(dtype).replace("torch.", ""), "k": k, "retain": retain}
+                     "dtype": str(dtype).replace("torch.", ""), "k": k, "retain": retain,
+                     "layouts": B.layouts, "calls_on_the_same_graph": reps,
+                     "arguments": "positional" if self.positional else "keyword"}
 
     def expected(self) -> dict:
         exp = self.scn["expected"]
-        return {l: exp[l - 1] for l in self.leaves}
+        out = {l: exp[l - 1] for l in self.leaves}
+        if self.reps > 1:                                   # r identical calls: grad0 + r * (expected - grad0)
+            for l in self.leaves:
+                if out[l] not in ([], None):
+                    b = self.before_grads[l] or [0.0] * len(out[l])
+                    out[l] = [b_ + self.reps * (e_ - b_) for e_, b_ in zip(out[l], b)]
+        return out
 
     def check_deposits(self) -> list[str]:
         out = []
@@ -86,20 +104,22 @@ class MtlRun:
         blocks = fmap(self.scn["jac"])
         if not self.shared:
             return ([] if len(self.agg.calls) == 0 else ["aggregator called although there is no shared parameter"]), []
-        if len(self.agg.calls) != 1:
-            return [f"aggregator called {len(self.agg.calls)} times"], []
-        if "final" not in self.agg.calls[0]:
-            return ["the aggregator was not invoked through aggregator(J) (Module.__call__): its forward hooks did not run"], []
-        m = self.agg.calls[0]["matrix"]
-        rows = len(self.losses)
+        if len(self.agg.calls) != self.reps:
+            return [f"aggregator called {len(self.agg.calls)} times by {self.reps} call(s)"], []
         found = []
-        for order in itertools.permutations(sorted(blocks)):
-            mat = [[x for l in order for x in blocks[l][r]] for r in range(rows)]
-            exp = torch.tensor(mat, dtype=m.dtype).reshape(rows, -1)
-            if exp.shape == m.shape and torch.equal(exp, m):
-                found.append(order)
-        if not found:
-            return [f"matrix handed to the aggregator {m.tolist()} != feature-level Jacobian {blocks}"], []
+        for c in self.agg.calls:
+            if "final" not in c:
+                return ["the aggregator was not invoked through aggregator(J) (Module.__call__): its forward hooks did not run"], []
+            m = c["matrix"]
+            rows = len(self.losses)
+            found = []
+            for order in itertools.permutations(sorted(blocks)):
+                mat = [[x for l in order for x in blocks[l][r]] for r in range(rows)]
+                exp = torch.tensor(mat, dtype=m.dtype).reshape(rows, -1)
+                if exp.shape == m.shape and torch.equal(exp, m):
+                    found.append(order)
+            if not found:
+                return [f"matrix handed to the aggregator {m.tolist()} != feature-level Jacobian {blocks}"], []
         return [], found
 
     def check_slices(self, orders) -> list[str]:
@@ -173,7 +193,7 @@ def twin_autograd_mtl(run: MtlRun) -> list[str]:
     .backward(): when autograd hands one gradient tensor to two leaves, torch's own AccumulateGrad
     may let their .grad alias, which would corrupt the twin's later accumulations.)"""
     scn = run.scn
-    B = Built(scn["prog"], dtype=run.dtype, shapes=run.built.shapes, real=run.built.real)
+    B = Built(scn["prog"], dtype=run.dtype, shapes=run.built.shapes, real=run.built.real, layouts=run.built.layouts)
     w = [float(v) for v in scn["w"]]
     feats = [B.node(f) for f in run.feats]
     cts = [torch.zeros_like(f) for f in feats]
@@ -202,7 +222,7 @@ def twin_autograd_mtl(run: MtlRun) -> list[str]:
         a = run.after_grads[l]
         before = run.before_grads[l]
         if l in upd:
-            u = upd[l].reshape(-1).tolist()
+            u = (run.reps * upd[l]).reshape(-1).tolist()   # every pass over the retained twin graph adds the same
             b = u if before is None else [x + y for x, y in zip(before, u)]
         else:
             b = before
@@ -217,7 +237,7 @@ def precision_run_mtl(scn: dict, rng: random.Random) -> list[str]:
     from torchjd.aggregation import Constant
     eps = 2.0 ** -29
     B = Built(scn["prog"], dtype=torch.float64, rng=rng, scalars=scn["losses"], perturb=eps)
-    T = Built(scn["prog"], dtype=torch.float64, shapes=B.shapes, real=B.real, perturb=eps)
+    T = Built(scn["prog"], dtype=torch.float64, shapes=B.shapes, real=B.real, perturb=eps, layouts=B.layouts)
     feats = [int(f) for f in scn["feats"]]
     losses = [int(l) for l in scn["losses"]]
     tparams = [[int(p) for p in tp] for tp in scn["tparams"]]
